@@ -513,6 +513,13 @@ def check_accounting(scn, run, V, compare_model=True):
     return exp, info
 
 
+def good_copy(scn, si, fname):
+    """does source si hold a well-formed copy of file fname?"""
+    src = scn['sources'][si]
+    key = file_modules(scn, fname)[0]
+    return src.get(key if key in src else fname, 'absent') in ('ok', 'ghost', 'ghostdefval')
+
+
 def served_text(scn, si, fname):
     t = source_tables(scn)[si].get(fname)
     return t
@@ -537,7 +544,7 @@ def check_fetching(scn, run, V):
         if n in seen:
             continue
         seen.add(n)
-        holders = [i for i in range(nsrc) if n in tables[i]]
+        holders = [i for i in range(nsrc) if n in tables[i] and good_copy(scn, i, n)]
         if n in BASE or n in V1_BASE:
             want.add(n)
             continue
@@ -572,14 +579,15 @@ def check_fetching(scn, run, V):
         for s in order:
             exp_seq.append(s)
             holds = (name in BASE or name in scn.get('base_extra', [])) if s == 'base' \
-                else (name in tables[int(s[1:])])
+                else (name in tables[int(s[1:])] and good_copy(scn, int(s[1:]), name))
             if holds:
                 break
         if seq != exp_seq:
             V('fetch_sequence', '%s: consulted %s, expected %s (stop at the first holder)' % (
                 name, seq, exp_seq), cls=graph_class(scn))
-        if len(rets.get(name, [])) > 1:
-            V('delivered_twice', '%s delivered %d times' % (name, len(rets[name])))
+        ngood = len([1 for src, _t in rets.get(name, []) if src == 'base' or good_copy(scn, int(src[1:]), name)])
+        if ngood > 1:
+            V('delivered_twice', '%s delivered %d times' % (name, ngood))
     names = set(calls)
     if total > (nsrc + 1) * max(1, len(names)):
         V('progress_bound', '%d getData calls for %d names and %d sources' % (total, len(names), nsrc + 1))
@@ -590,13 +598,17 @@ def check_fetching(scn, run, V):
         V('parsed_more_than_fetched', '%d parser calls for %d successful fetches' % (len(parses), fetched))
     parsed_texts = [e['text'] for e in parses]
     for name, lst in rets.items():
+        lst = [x for x in lst if x[0] == 'base' or good_copy(scn, int(x[0][1:]), name)] or lst[-1:]
         src, text = lst[0]
         if parsed_texts.count(text) != 1:
             V('parse_count', 'text of %s from %s handed to the parser %d times' % (
                 name, src, parsed_texts.count(text)))
         if name in BASE or name in V1_BASE:
             continue
-        first = [i for i in range(nsrc) if name in tables[i]][0]
+        firsts = [i for i in range(nsrc) if name in tables[i] and good_copy(scn, i, name)]
+        if not firsts:
+            continue
+        first = firsts[0]
         if text != tables[first][name]:
             V('wrong_source_text', '%s: parser got the copy of %s, first holder is s%d' % (name, src, first))
     # what was finally written stems from the first holder (unique tag arc per source)
@@ -605,7 +617,7 @@ def check_fetching(scn, run, V):
         if m in BASE or m not in scn['modules']:
             continue
         fname = file_of(scn, m)
-        holders = [i for i in range(nsrc) if fname in tables[i]]
+        holders = [i for i in range(nsrc) if fname in tables[i] and good_copy(scn, i, fname)]
         if not holders:
             continue
         tag = '1.3.6.1.4.1.99999.%d.' % (holders[0] + 1)
@@ -632,6 +644,10 @@ def check_nowrite(scn, run, V):
             if puts:
                 V('written_despite_failure', 'failures %s remain but %s handed to the writer' % (
                     sorted(set(bad + exp_bad)), puts), nbad=len(bad))
+            for e in tr.select('borrower', 'getData', 'ret'):
+                if result.get(e['name']) == 'borrowed':
+                    V('borrowed_not_unprocessed', '%s was borrowed, failures %s remain and nothing is written, yet it is '
+                      'reported borrowed' % (e['name'], sorted(set(bad + exp_bad))), status='borrowed')
             for m in built:
                 if result.get(m) != 'unprocessed':
                     V('built_not_unprocessed', '%s was built, failures %s remain, status is %s' % (
